@@ -147,20 +147,7 @@ def r_chunk_kinds(ctx):
     h = R.handler
     cfg = ex.cfg
     msg = info['msg']
-    # receiver: conds comparing (alias of) message.get('transmission') with constants
-    handled = {}
-    for n in cfg.nodes:
-        if n.kind == 'cond' and res.reached(n.id) and isinstance(n.ast, ast.Compare) and len(n.ast.ops) == 1 and isinstance(n.ast.ops[0], ast.Eq) \
-                and isinstance(n.ast.comparators[0], ast.Constant) and isinstance(n.ast.comparators[0].value, str) and isinstance(n.ast.left, ast.Name):
-            if n.ast.comparators[0].value in emitted or 'ransmission' in n.ast.left.id:
-                handled[n.ast.comparators[0].value] = n
-    inst = 'sender kinds = receiver kinds'
-    ctx.tick()
-    if set(handled) == emitted:
-        ctx.ok(inst, h.loc(), 'kinds %s' % sorted(emitted))
-    else:
-        ctx.violation('%s:chunk-kind-sets-differ' % h.qualname, h.loc(), 'the sender emits %s, the receiver handles %s' % (sorted(emitted), sorted(handled)), instance=inst)
-    # buffer attribute: the one assigned from message['data']
+    # buffer attribute: the one assigned / extended from message['data']
     buf = None
     for n in cfg.nodes:
         if n.kind == 'stmt' and isinstance(n.ast, (ast.Assign, ast.AugAssign)) and res.reached(n.id):
@@ -178,50 +165,59 @@ def r_chunk_kinds(ctx):
                 first = kind
             elif cond is not None:
                 last = kind
-    for kind, cn in sorted(handled.items()):
-        tt = [d for d, l in cn.succ if l == ('cond', True)]
-        if not tt:
-            continue
-        # nodes of this branch: reachable from the true edge without passing other kind tests
-        others = [m.id for k2, m in handled.items() if k2 != kind]
-        branch = cfg.reachable_from(tt[0], avoid=others + [cfg.exit.id], follow_exc=False)
-        effects = []
-        for nid in sorted(branch):
-            m = cfg.nodes[nid]
-            if m.kind != 'stmt':
-                continue
-            if isinstance(m.ast, ast.Assign) and P.self_attr(m.ast.targets[0], h.self_name) == buf:
-                effects.append('reset' if not isinstance(m.ast.value, ast.Constant) else 'clear')
-            if isinstance(m.ast, ast.AugAssign) and P.self_attr(m.ast.target, h.self_name) == buf and isinstance(m.ast.op, ast.Add):
-                effects.append('append')
-            if any(isinstance(c, ast.Call) and unparse(c.func).endswith('loads') and any(P.self_attr(x, h.self_name) == buf for x in ast.walk(c)) for c in ast.walk(m.ast)):
-                effects.append('decode')
-            if isinstance(m.ast, ast.Return):
-                effects.append('return')
-                break
-        inst = 'receiver branch for kind %r' % kind
-        ctx.tick()
-        want = None
+
+    def ev(m):
+        out = []
+        if m.kind != 'stmt' or m.ast is None:
+            return out
+        if isinstance(m.ast, ast.Assign) and P.self_attr(m.ast.targets[0], h.self_name) == buf:
+            out.append('clear' if isinstance(m.ast.value, ast.Constant) else 'reset')
+        if isinstance(m.ast, ast.AugAssign) and P.self_attr(m.ast.target, h.self_name) == buf and isinstance(m.ast.op, ast.Add):
+            out.append('append')
+        if any(isinstance(c, ast.Call) and unparse(c.func).endswith('loads') and any(P.self_attr(x, h.self_name) == buf for x in ast.walk(c)) for c in ast.walk(m.ast)):
+            out.append('decode')
+        return out
+    rets = [m.id for m in cfg.nodes if m.kind == 'stmt' and isinstance(m.ast, ast.Return)]
+    lookup_id = info['lookup'][0].id if info.get('lookup') else None
+    ctx.require(lookup_id is not None, 'log lookup after the chunk handling not found')
+    getter = ex.tb.term(U.parse_expr("%s.get('transmission', None)" % msg))
+    from ..facts import const_term
+    handled = set()
+    for kind in sorted(emitted):
+        init = frozenset([('eq', getter, const_term(kind)), ex.tb.literal(U.parse_expr("'prevLogIdx' in %s" % msg), True)])
+        r2 = ex.run(start=info['entry'], init=init, track=ev, stop=rets + [lookup_id, cfg.exit.id], follow_exc=False)
+        outcomes = set()
+        for end in rets + [lookup_id]:
+            for fs, cnt in r2.cstates.get(end, ()):
+                outcomes.add((tuple(sorted(cnt)), 'continue' if end == lookup_id else 'return'))
+        inst = 'receiver effects for a %r chunk' % kind
+        ctx.tick(len(outcomes))
         if kind == first:
-            want = ['reset', 'return']
+            want = {((('reset', 1),), 'return')}
         elif kind == last:
-            want = ['append', 'decode', 'clear']
+            want = {((('append', 1), ('clear', 1), ('decode', 1)), 'continue')}
         else:
-            want = ['append', 'return']
-        got = [e for e in effects if e in ('reset', 'append', 'decode', 'clear', 'return')]
-        if got[:len(want)] == want:
-            ctx.ok(inst, h.loc(cn.ast), 'effects %s' % got[:len(want)])
+            want = {((('append', 1),), 'return')}
+        if outcomes:
+            handled.add(kind)
+        if outcomes == want:
+            ctx.ok(inst, h.loc(cfg.nodes[info['entry']].ast), 'on every path: %s' % sorted(want))
+        elif not outcomes:
+            ctx.violation('%s:chunk-kind-%s-unhandled' % (h.qualname, kind), h.loc(cfg.nodes[info['entry']].ast), 'a %r chunk reaches neither a return nor the log lookup (it raises)' % kind, instance=inst)
         else:
-            ctx.violation('%s:chunk-branch-%s' % (h.qualname, kind), h.loc(cn.ast), 'for a %r chunk the receiver does %s, expected %s' % (kind, got, want), instance=inst)
+            ctx.violation('%s:chunk-branch-%s' % (h.qualname, kind), h.loc(cfg.nodes[info['entry']].ast),
+                          'for a %r chunk the receiver does %s; expected %s (the first chunk must replace the buffer, later ones extend it, the last one decodes and clears it)'
+                          % (kind, sorted(outcomes), sorted(want)), instance=inst)
     # unknown kind raises
     inst = 'unknown chunk kind raises'
     ctx.tick()
-    raises = [n for n in cfg.nodes if n.kind == 'stmt' and isinstance(n.ast, ast.Raise) and res.reached(n.id)]
-    if raises:
-        ctx.ok(inst, h.loc(raises[0].ast), '')
+    init = frozenset([('eq', getter, const_term('\0no-such-kind')), ex.tb.literal(U.parse_expr("'prevLogIdx' in %s" % msg), True)])
+    r3 = ex.run(start=info['entry'], init=init, stop=rets + [lookup_id, cfg.exit.id], follow_exc=False)
+    if any(r3.reached(e) for e in rets + [lookup_id]):
+        ctx.violation('%s:unknown-chunk-kind-ignored' % h.qualname, h.loc(), 'a chunk of an unknown kind is silently accepted', instance=inst)
     else:
-        ctx.violation('%s:unknown-chunk-kind-ignored' % h.qualname, h.loc(), 'an unknown chunk kind is silently accepted', instance=inst)
-    ctx.expect_min(4)
+        ctx.ok(inst, h.loc(), 'no return / continuation reachable with an unknown kind')
+    ctx.expect_min(3)
 
 
 def decorator_inner(ctx, name):
